@@ -244,7 +244,8 @@ class BigEdge:
         if chord_squared == 0:
             return False
         deviations = [abs(dx * (float(v.y) - y0) - dy * (float(v.x) - x0)) for v in self.vertices[1:-1]]
-        return len(deviations) == 0 or max(deviations) <= 1e-12 * chord_squared
+        # below a relative sagitta of 1e-7 (a turning of 4e-7) a circle fit cannot tell the arc from the line
+        return len(deviations) == 0 or max(deviations) <= 1e-7 * chord_squared
 
     def get_vertex_object_by_id(self, vid: int) -> object:
         """
